@@ -76,33 +76,67 @@ fn check_protocol(samples: std::collections::BTreeMap<(bool, bool, bool, bool, b
         }
     }
     let events = raindb::verif::events_take(crate::dbsim::DB_PATH);
-    let (mut tasks, mut running) = (0i64, false);
-    let mut cache: std::collections::BTreeMap<String, String> = std::collections::BTreeMap::new();
-    for ev in events {
-        let raindb::verif::Event::Sched { kind, scheduled, imm, manual, needs_compaction, bad, shutting_down, level0_files } = ev else { continue };
-        tie.0 += 1;
-        let mut check_now = true;
-        match kind {
-            "schedule" => {
-                tasks += 1;
-                check_now = !running; // inside the worker's own critical section the step is not finished yet
+    let mut tracker = SchedTracker::default();
+    tie.0 += events.iter().filter(|e| matches!(e, raindb::verif::Event::Sched { .. })).count() as u64;
+    if let Some(f) = tracker.feed(&events, &mut drv) {
+        fails.push(f);
+    }
+}
+
+/// Follows the recorded `schedule` / `start` / `finish` steps of one database instance (queued-task
+/// and running counters are derived from the steps) and evaluates the model's invariant at each.
+#[derive(Default)]
+pub struct SchedTracker {
+    tasks: i64,
+    running: bool,
+    cache: std::collections::BTreeMap<String, String>,
+    pub checked: u64,
+}
+
+impl SchedTracker {
+    /// a new database instance (after close + reopen) starts with no task queued
+    pub fn reset(&mut self) {
+        self.tasks = 0;
+        self.running = false;
+    }
+    pub fn feed(&mut self, events: &[raindb::verif::Event], drv: &mut crate::drv::Drv) -> Option<Fail> {
+        for ev in events {
+            let raindb::verif::Event::Sched { kind, scheduled, imm, manual, needs_compaction, bad, shutting_down, level0_files } = ev else { continue };
+            let (kind, scheduled, imm, manual, needs_compaction, bad, shutting_down, level0_files) = (*kind, *scheduled, *imm, *manual, *needs_compaction, *bad, *shutting_down, *level0_files);
+            let mut check_now = true;
+            match kind {
+                "schedule" => {
+                    self.tasks += 1;
+                    check_now = !self.running; // inside the worker's own critical section the step is not finished yet
+                }
+                "start" => {}
+                "finish" => self.running = false,
+                _ => {}
             }
-            "start" => {}
-            "finish" => running = false,
-            _ => {}
-        }
-        if check_now {
-            let req = format!("sched.inv {} {} {} {} {} {} {} {} {} 0", b(scheduled), tasks.max(0), b(running), b(imm), b(manual), b(needs_compaction), b(bad), b(shutting_down), level0_files);
-            let a = cache.entry(req.clone()).or_insert_with(|| drv.ask(&req)).clone();
-            if a != "ok" || tasks < 0 {
-                fails.push(("c09:scheduling-protocol-outside-the-verified-invariant".into(), format!("at a '{kind}' step of the background worker protocol the observed state (flag={scheduled}, queued tasks={tasks}, running={running}, immutable-memtable={imm}, manual={manual}, needs-compaction={needs_compaction}, level-0 files={level0_files}, bad={bad}, shutting-down={shutting_down}) violates the model's invariant: {a}")));
-                break;
+            if check_now {
+                let req = format!("sched.inv {} {} {} {} {} {} {} {} {} 0", b(scheduled), self.tasks.max(0), b(self.running), b(imm), b(manual), b(needs_compaction), b(bad), b(shutting_down), level0_files);
+                let a = match self.cache.get(&req) {
+                    Some(a) => a.clone(),
+                    None => {
+                        let a = drv.ask(&req);
+                        self.cache.insert(req.clone(), a.clone());
+                        a
+                    }
+                };
+                if a == "no-model" {
+                    return None;
+                }
+                self.checked += 1;
+                if a != "ok" || self.tasks < 0 {
+                    return Some(("c09:scheduling-protocol-outside-the-verified-invariant".into(), format!("at a '{kind}' step of the background worker protocol the observed state (flag={scheduled}, queued tasks={}, running={}, immutable-memtable={imm}, manual={manual}, needs-compaction={needs_compaction}, level-0 files={level0_files}, bad={bad}, shutting-down={shutting_down}) violates the model's invariant: {a}", self.tasks, self.running)));
+                }
+            }
+            if kind == "start" {
+                self.tasks -= 1;
+                self.running = true;
             }
         }
-        if kind == "start" {
-            tasks -= 1;
-            running = true;
-        }
+        None
     }
 }
 
